@@ -18,7 +18,7 @@ import sys
 import tempfile
 import time
 
-WT = '/tmp/wt/mut'
+WT = os.environ.get('MUT_WT', '/tmp/wt/mut')  # use another worktree (MUT_WT=...) for a second, concurrent run
 SRC = 'src/pjplan'
 FILES = {
     'task.py': ['C18', 'C20', 'C16', 'C10', 'C13', 'C12'],          # C16 run = all Engine A properties (VF_ALL_PROPS)
@@ -146,6 +146,7 @@ def main():
     def opt(name, default):
         return int(args[args.index(name) + 1]) if name in args else default
     lo, hi, every, workers = opt('--from', 0), opt('--to', 10 ** 9), opt('--every', 1), opt('--workers', 12)
+    only = set(int(x) for x in args[args.index('--only') + 1].split(',')) if '--only' in args else None
     path = os.path.join(WT, SRC, f)
     original = open(path).read()
     tree = ast.parse(original)
@@ -157,7 +158,7 @@ def main():
     checks = FILES[f]
     stats = {'killed-by-tests': 0, 'detected': 0, 'survived': 0, 'invalid': 0, 'harness-error': 0}
     for num, (idx, desc, mut) in enumerate(allsites):
-        if num < lo or num >= hi or (num - lo) % every:
+        if num < lo or num >= hi or (num - lo) % every or (only is not None and num not in only):
             continue
         try:
             src = apply(tree, idx, mut)
